@@ -60,7 +60,8 @@ def table_specs(draw, classes=CLASSES):
         comp = tuple(doms[f][:2])
         if comp not in doms[f] and (cls != "StateActionNextStateTable" or f == 1):
             doms[f].append(comp)
-    return {"cls": cls, "fields": [[enc(e) for e in d] for d in doms], "collide": collide}
+    return {"cls": cls, "fields": [[enc(e) for e in d] for d in doms], "collide": collide,
+            "dtype": draw(st.sampled_from([None, None, None, "float32", "int64", "longdouble"])) if cls in ("Table", "StateTable", "StateActionTable") else None}
 
 
 def build_table(spec):
@@ -70,6 +71,11 @@ def build_table(spec):
     doms = [[dec(e) for e in d] for d in spec["fields"]]
     shape = tuple(len(d) for d in doms)
     base = np.arange(int(np.prod(shape)), dtype=float).reshape(shape) + 1.0
+    dt = spec.get("dtype")
+    if dt == "longdouble":      # extended precision, entries that are not doubles
+        base = base.astype(np.longdouble) + np.longdouble(1) / np.longdouble(3)
+    elif dt in ("float32", "int64"):
+        base = base.astype(dt)
     cls = spec["cls"]
     names = ("f0", "f1", "f2")[:len(doms)]
     if cls == "Table":
@@ -92,7 +98,8 @@ def is_cell(x, value):
     if is_tableish(x):
         return False
     try:
-        return np.ndim(x) == 0 and float(x) == float(value)
+        # (compared in the table's own number type: an extended-precision cell is not equal to its double rounding)
+        return np.ndim(x) == 0 and bool(x == value) and float(x) == float(value)
     except (TypeError, ValueError):
         return False
 
